@@ -23,8 +23,9 @@ RULE = ("(failure points, exhaustive) for each API (compute_dynamics, compute_dy
         "(sys.settrace) runs the timer callback and the caller (exit(), or update() then exit()) in EVERY interleaving of the "
         "lines of ProgressBar.enter/update/exit (callback vs exit(): complete, ~800 schedules; callback vs update()+exit(): "
         "depth-first up to 1500 schedules quick / 20000 thorough); oracle at quiescence: no armed timer. (real-threads) the same failure with "
-        "real threading.Timer in a child interpreter, judged from the thread table. Non-trivial: failure at 0<k<=N with "
-        "progress 'bar'/default, or a pre-emption inside update()/exit().")
+        "real threading.Timer in a child interpreter, judged from the thread table. The failing callables are armed only after the "
+        "constructors' input checks (which evaluate them at t=1.0), so the failure happens inside the running computation. "
+        "Non-trivial: failure at 0<k<=N with progress 'bar'/default raised after the computation armed a progress timer, or a pre-emption inside update()/exit().")
 TECHNIQUE = "fault injection with exhaustive enumeration of failure points x progress modes, and exhaustive schedule enumeration of the progress-timer callback against the caller with a harness-owned scheduler and fake timer"
 LEVEL_TEXT = ("Every (API, failure kind, step, progress mode) combination is executed with a harness-owned timer and the "
               "post-condition 'nothing armed, nothing alive' is checked; all line-level interleavings of one timer callback with "
@@ -42,12 +43,16 @@ class Boom(Exception):
     pass
 
 
+ARMED = [False]      # the constructors evaluate user callables at t=1.0 for input checks: guards are armed after construction
+
+
 def _at_step(k, t0=0.0):
-    """callable guard: raise when evaluated at a time inside step k or later"""
+    """callable guard: raise when evaluated (by a computation, not by a constructor's input check) at a time inside
+    step k or later"""
     thr = t0 + k * DT - 1e-12
 
     def guard(t):
-        if t > thr:
+        if ARMED[0] and t > thr:
             raise Boom(f"injected at t={t}")
     return guard
 
@@ -150,7 +155,13 @@ def _run_api(case):
     def lop(t):
         gL(t)
         return sm
-    tsys = lambda: oqupy.TimeDependentSystem(H, gammas=[gam], lindblad_operators=[lop])
+    def tsys():
+        ARMED[0] = False
+        try:
+            return oqupy.TimeDependentSystem(H, gammas=[gam], lindblad_operators=[lop])
+        finally:
+            ARMED[0] = True
+    ARMED[0] = True
     bath = oqupy.Bath(0.5 * sz, oqupy.PowerLawSD(0.1, 1.0, 3.0, temperature=0.3))
     par = oqupy.TempoParameters(dt=DT, epsrel=1e-6, dkmax=2, subdiv_limit=None)
     end = (N + 0.5) * DT
@@ -168,11 +179,9 @@ def _run_api(case):
             gF(t)
             return -0.2j * a - 0.1 * a - 0.3j * np.trace(st_[0] @ sm)
         # constructors evaluate the callables at t=1.0 for input checks: build with guards disarmed
-        saved = (gH, gF)
-        gH2, gF2 = gH, gF
-        gH = gF = (lambda t: None)
+        ARMED[0] = False
         mfs = oqupy.MeanFieldSystem([oqupy.TimeDependentSystemWithField(Hf)], eom)
-        gH, gF = gH2, gF2
+        ARMED[0] = True
         if api == "MeanFieldTempo":
             return oqupy.MeanFieldTempo(mfs, [bath], par, [rho0], 0.3 + 0.1j).compute(end, progress_type=prog)
         return oqupy.compute_dynamics_with_field(mfs, 0.3 + 0.1j, [_pt(ptk, k)], initial_state_list=[rho0],
@@ -257,6 +266,7 @@ def run_fault(case):
     out = Outcome()
     api, fault, k, prog = case["api"], case["fault"], case["k"], case["progress"]
     FakeTimer.reset()
+    ARMED[0] = False
     _FiringTimer.fire_at = case.get("fire_at")
     _FiringTimer.started_count = 0
     saved_timer = U.Timer
@@ -292,7 +302,11 @@ def run_fault(case):
     new_threads = [t for t in threading.enumerate() if t not in before and t.is_alive()]
     expect_raise = fault != "none" and not (k >= N and fault in ("hamiltonian", "gamma", "lindblad", "field_eom", "target",
                                                                  "prop-derivative", "correlation", "spectral-density", "bad-mpo"))
-    out.nontrivial = bool(raised is not None and k > 0 and prog in ("bar", None))
+    n_created = len(FakeTimer.created)
+    # non-trivial: the failure happened after the computation had armed a progress timer (not in a constructor's input check)
+    out.nontrivial = bool(raised is not None and k > 0 and prog in ("bar", None) and n_created > 0)
+    if raised is not None and prog in ("bar", None):
+        out.label("raised-after-timer-armed" if n_created else "raised-before-any-timer")
     out.label("api=" + api, "fault=" + fault, "progress=" + str(prog), "raised" if raised is not None else "returned",
               "timer-fired-mid-run" if case.get("fire_at") else "timer-never-fired")
     if n_live:
